@@ -504,6 +504,9 @@ pub struct Case03L {
     pub take: Option<u64>,
     pub group: u8,
     pub order_seed: u64,
+    /// with --split-by: the first sort key and the group key are read from the parent (`^.k`)
+    #[serde(default)]
+    pub parent_keys: bool,
 }
 
 impl Case03L {
@@ -551,13 +554,16 @@ impl Case03L {
                 _ => vec![],
             },
         };
+        // after --split-by the most significant key (and the group key) may come from the
+        // enclosing record: it is evaluated when the row has already waited in another sorter
+        let up = |k: &str| if self.split && self.parent_keys { Expr::key(1, k) } else { Expr::key(0, k) };
         let sorts = match self.sorts {
             1 => vec![(key("k"), self.desc)],
-            2 => vec![(key("k"), self.desc), (key("g"), false)],
-            3 => vec![(key("g"), true), (key("k"), self.desc)],
+            2 => vec![(up("k"), self.desc), (key("g"), false)],
+            3 => vec![(up("g"), true), (key("k"), self.desc)],
             _ => vec![],
         };
-        Case03 { pipe, only_objects: false, unique: self.unique, sorts, skip: self.skip, take: self.take, group: self.group, group_key: if self.group == 1 { Some(key("gs")) } else { None }, inputs, order_seed: self.order_seed, order_seed2: self.order_seed.rotate_left(17) }
+        Case03 { pipe, only_objects: false, unique: self.unique, sorts, skip: self.skip, take: self.take, group: self.group, group_key: if self.group == 1 { Some(up("gs")) } else { None }, inputs, order_seed: self.order_seed, order_seed2: self.order_seed.rotate_left(17) }
     }
 }
 
@@ -592,7 +598,7 @@ impl Check for C03Large {
                     7 => Some(frac(tr, n)),
                     _ => Some(1 + frac(tr, 40)),
                 };
-                Case03L { n, seed, keys, split, filter, sel, unique, sorts, desc, skip, take, group, order_seed: seed.rotate_left(29) }
+                Case03L { n, seed, keys, split, filter, sel, unique, sorts, desc, skip, take, group, order_seed: seed.rotate_left(29), parent_keys: seed % 2 == 1 }
             })
             .boxed()
     }
